@@ -424,6 +424,32 @@ def _tables(ctx, prog):
             a.op == "cmp" and a.args[1] is tm.param("label") and
             tm.is_const(a.args[2], None) for a in tm.atoms(c))
         ok = has_given and has_base and given_first
+        if ok:
+            # decision table over (label given?, est_name present?)
+            lp = tm.param("label")
+
+            def pick(t: T, given: bool, has_name: bool):
+                while t.op == "ite":
+                    def env(a):
+                        if a.op == "cmp" and a.args[0] in ("Is", "IsNot") \
+                                and a.args[1] is lp:
+                            return (not given) == (a.args[0] == "Is")
+                        if a.op == "cmp" and a.args[0] in ("In", "NotIn") \
+                                and tm.is_const(a.args[1], "est_name"):
+                            return has_name == (a.args[0] == "In")
+                        return None
+                    v = tm.fold(t.args[0], env)
+                    if v is None:
+                        return None
+                    t = t.args[1] if v else t.args[2]
+                return t
+            t_gn, t_g = pick(lab, True, True), pick(lab, True, False)
+            t_n, t_0 = pick(lab, False, True), pick(lab, False, False)
+            ok = t_gn is lp and t_g is lp and t_n is not None and \
+                is_call_to(t_n, "os.path.basename") and any(
+                    tm.is_const(x, "est_name") for x in t_n.walk()) and \
+                t_0 is not None and tm.is_const(t_0) and \
+                isinstance(t_0.args[1], str)
     ctx.ob("C13.6", f, ok,
            "result_to_df: column label = given label, else basename of the "
            "result's est_name" if ok else
